@@ -196,9 +196,13 @@ class _BaseLayout(MaildirLayout[_MaildirT], metaclass=ABCMeta):
     def get_folder(self, name: str, delimiter: str) -> _MaildirT:
         path = self.get_path(name, delimiter)
         try:
-            return self._maildir(path, create=False)
+            maildir = self._maildir(path, create=False)
         except NoSuchMailboxError as exc:
             raise FileNotFoundError(path) from exc
+        for subdir in ('tmp', 'new', 'cur'):
+            # a process killed while it created the folder leaves these out
+            os.makedirs(os.path.join(path, subdir), exist_ok=True)
+        return maildir
 
     def add_folder(self, name: str, delimiter: str) -> None:
         parts = self._split(name, delimiter)
